@@ -206,6 +206,11 @@ class KeyedList(Generic[ItemType, KeyType], MutableSequence, KeyedBase):  # pyli
             self._list.append(item)
             self._dict[key] = item
 
+    def reverse(self):
+        # The mixin reverses by pairwise item assignment, which transiently
+        # duplicates a key; the key index does not depend on order.
+        self._list.reverse()
+
     def __contains__(self, value):
         try:
             if value in self._dict:
